@@ -35,7 +35,8 @@ fn ranges_of(v: &Value) -> Vec<HashRange> {
                     let length = r["length"].as_u64().or_else(|| r["length"].as_str().and_then(|s| s.parse().ok())).unwrap();
                     let mut h = HashRange::new(start, length);
                     if r["marker"].as_bool().unwrap_or(false) {
-                        h.set_bmff_offset(start);
+                        let moff = r["moff"].as_u64().or_else(|| r["moff"].as_str().and_then(|s| s.parse().ok())).unwrap_or(start);
+                        h.set_bmff_offset(moff);
                     }
                     h
                 })
@@ -108,6 +109,7 @@ pub fn record(args: &[String]) {
         for _ in 0..nr {
             let class = rng.gen_range(0..20);
             let l64 = len as u64;
+            let mut moff: u64 = 0;
             let (start, length, marker): (u64, u64, bool) = match class {
                 0 => (rng.gen_range(0..=l64), 0, false),                                    // empty
                 1 => (rng.gen_range(0..=l64 + 3), rng.gen_range(0..=l64 + 3), false),       // maybe past end
@@ -127,14 +129,22 @@ pub fn record(args: &[String]) {
             if !excl && !used_starts.insert(start) {
                 continue; // keep inclusion starts distinct (order of equal starts is unspecified)
             }
-            rs.push(json!({"start": start.to_string(), "length": length.to_string(), "marker": marker}));
+            let mut marker = marker;
+            if marker {
+                moff = start;
+            } else if !excl && len > 0 && rng.gen_bool(0.35) {
+                // inclusion range carrying a BMFF offset (offsets deliberately unrelated to range order)
+                marker = true;
+                moff = rng.gen_range(0..(len as u64 + 50));
+            }
+            rs.push(json!({"start": start.to_string(), "length": length.to_string(), "marker": marker, "moff": moff.to_string()}));
         }
         if rng.gen_bool(0.3) {
             // adjacent pair
             if len > 4 && excl {
                 let s = rng.gen_range(0..(len as u64 - 3));
-                rs.push(json!({"start": s.to_string(), "length": "1", "marker": false}));
-                rs.push(json!({"start": (s + 1).to_string(), "length": "2", "marker": false}));
+                rs.push(json!({"start": s.to_string(), "length": "1", "marker": false, "moff": "0"}));
+                rs.push(json!({"start": (s + 1).to_string(), "length": "2", "marker": false, "moff": "0"}));
             }
         }
         let alg = algs[rng.gen_range(0..3)];
